@@ -114,7 +114,7 @@ pub axiom fn ax_rv_inf() ensures rv(finf()) > 0real, rv(fneginf()) < 0real, rv(f
                              (r"let \(ind, _\) = cum_reg\s*\.into_floats_mut\(\)\s*\.enumerate\(\)\s*\.max_by\(\|\(_, l\), \(_, r\)\| l\.partial_cmp\(r\)\.unwrap\(\)\)\s*\.unwrap\(\);", "let ind = __abs_argmax(cum_reg);", "R6 argmax chain"),
                              (r"let \(ind, _\) = cum_reg\s*\.into_floats_mut\(\)\s*\.enumerate\(\)\s*\.min_by\(\|\(_, l\), \(_, r\)\| l\.partial_cmp\(r\)\.unwrap\(\)\)\s*\.unwrap\(\);", "let ind = __abs_argmin(cum_reg);", "R6 argmin chain"),
                              (r"strat\[ind\] = 1\.0;", "strat[ind] = 1.0; proof { assert(one_hot(strat@, ind as int)); }", "HINT (a checked assert naming the one-hot vector, after the statement that completes it)"),
-                             (r"(?s)\} else \{\s*// shift by the regret with the largest weighted value.*\*val = \(\(reg - max\) \* self\.no_positive\)\.exp\(\) / norm;\s*\}\s*\}\s*$", "} else {\n __abs_softmax(self.no_positive, cum_reg, strat);\n }\n", "R6 softmax fallback abstracted as a whole")],
+                             (r"(?s)\} else \{\s*(?://[^\n]*\n\s*)*let extremum: fn\(f64, f64\) -> f64 = .*\*val = \(\(reg - max\) \* self\.no_positive\)\.exp\(\) / norm;\s*\}\s*\}\s*$", "} else {\n __abs_softmax(self.no_positive, cum_reg, strat);\n }\n", "R6 softmax fallback abstracted as a whole")],
                  contract="""ensures
     final(cum_reg)@ == old(cum_reg)@,
     final(strat)@.len() == old(strat)@.len(),
